@@ -160,6 +160,9 @@ package core
 // Abstract view of the key-ordered index: bthas[t][x] says that item x (a *regionItem) is stored in the B-tree t.
 // keyord embeds the total order of keys into the reals ("" is the least key; an empty END key means +infinity).
 //@ ghostmap bthas bool2
+//@ ghostmap btlen int
+// The key by which the index orders its items: the position of the region's start key.
+//@ pure btkey(x *regionItem) = keyord(x.region.meta.StartKey)
 //@ pure ver(x *RegionInfo) = ite(x.meta.RegionEpoch == nil, 0, x.meta.RegionEpoch.Version)
 //@ pure cver(x *RegionInfo) = ite(x.meta.RegionEpoch == nil, 0, x.meta.RegionEpoch.ConfVer)
 //@ pure ovl(a *RegionInfo, b *RegionInfo) = (len(b.meta.EndKey) == 0 || keyord(a.meta.StartKey) < keyord(b.meta.EndKey)) && (len(a.meta.EndKey) == 0 || keyord(b.meta.StartKey) < keyord(a.meta.EndKey))
@@ -176,18 +179,12 @@ package core
 // brings a new key range, not older in version than any indexed region it overlaps.
 //@ pure acceptable(r *RegionsInfo, region *RegionInfo) = (cachedRegion(r, region.meta.Id) != nil ==> !staleVs(region, cachedRegion(r, region.meta.Id))) && ((cachedRegion(r, region.meta.Id) == nil || !sameRange(cachedRegion(r, region.meta.Id), region)) ==> (forall x *regionItem :: {inTree(r, x)} inTree(r, x) && ovl(x.region, region) ==> ver(region) >= ver(x.region)))
 
-// The key index's overlap query: trusted at this level (it rests on the B-tree's ordered iteration; see C07).
-//@ func (*regionTree).getOverlaps
-//@   assumed
-//@   ensures [complete] forall x *regionItem :: {bthas[t.tree][x]} bthas[t.tree][x] && ovl(x.region, region) ==> (exists i :: 0 <= i && i < len(result) && result[i] == x.region)
-//@   ensures [sound] forall i :: {result[i]} 0 <= i && i < len(result) ==> result[i] != nil && result[i].meta != nil && allocated(result[i]) && ovl(result[i], region) && (exists x *regionItem :: bthas[t.tree][x] && x.region == result[i])
-//@   modifies nothing
-
 // PreCheckPutRegion: a put that is stale against the cached region of its id, or older than a cached region it
 // overlaps, gets an error; one that is not gets none; nothing is changed.
 //@ func (*BasicCluster).PreCheckPutRegion
 //@   props C06
-//@   requires bc != nil && wfRI(bc.Regions) && region != nil && region.meta != nil
+//@   requires bc != nil && wfRI(bc.Regions) && itemsOK(bc.Regions.tree.tree) && disjointT(bc.Regions.tree.tree) && region != nil && region.meta != nil
+//@   at getOverlaps * mode index
 //@   ensures [origin] r1 == nil ==> r0 == cachedRegion(bc.Regions, region.meta.Id)
 //@   ensures [passes-only-fresh] r1 == nil && cachedRegion(bc.Regions, region.meta.Id) != nil ==> !staleVs(region, cachedRegion(bc.Regions, region.meta.Id))
 //@   ensures [passes-only-newer-than-overlaps] r1 == nil && (cachedRegion(bc.Regions, region.meta.Id) == nil || !sameRange(cachedRegion(bc.Regions, region.meta.Id), region)) ==> (forall x *regionItem :: {inTree(bc.Regions, x)} inTree(bc.Regions, x) && ovl(x.region, region) ==> ver(region) >= ver(x.region))
@@ -200,33 +197,81 @@ package core
 //@ pure validRange(x *RegionInfo) = len(x.meta.EndKey) == 0 || keyord(x.meta.StartKey) < keyord(x.meta.EndKey)
 //@ pure holdsKey(x *RegionInfo, k []byte) = keyord(k) >= keyord(x.meta.StartKey) && (len(x.meta.EndKey) == 0 || keyord(k) < keyord(x.meta.EndKey))
 //@ pure opaque disjointT(t *btree.BTree) = forall x *regionItem, y *regionItem :: {bthas[t][x], bthas[t][y]} bthas[t][x] && bthas[t][y] && x != y ==> !ovl(x.region, y.region)
-//@ pure itemsOK(t *btree.BTree) = forall x *regionItem :: {bthas[t][x]} bthas[t][x] ==> x != nil && allocated(x) && x.region != nil && allocated(x.region) && x.region.meta != nil && allocated(x.region.meta) && validRange(x.region)
+//@ pure itemOK(x *regionItem) = x != nil && allocated(x) && x.region != nil && allocated(x.region) && x.region.meta != nil && allocated(x.region.meta) && validRange(x.region)
+//@ pure itemsOK(t *btree.BTree) = forall x *regionItem :: {bthas[t][x]} bthas[t][x] ==> itemOK(x)
+
+// ================= C07: the key index answers like a linear scan =================
+// find: the item whose region holds the start key of the argument, if any. (Mode `index`: the tree is a
+// well-formed index - valid, pairwise disjoint regions - and then the holder is unique and nil means none.)
+//@ func (*regionTree).find
+//@   props C07
+//@   requires t != nil && t.tree != nil && region != nil && region.meta != nil && itemsOK(t.tree)
+//@   requires [index-ok] @index disjointT(t.tree)
+//@   at DescendLessOrEqual 1 invariant itk == 0 && result == nil
+//@   ensures [holder] result != nil ==> bthas[t.tree][result] && holdsKey(result.region, region.meta.StartKey)
+//@   ensures [none] @index result == nil ==> (forall x *regionItem :: {bthas[t.tree][x]} bthas[t.tree][x] ==> !holdsKey(x.region, region.meta.StartKey))
+//@   ensures [unique] @index result != nil ==> (forall x *regionItem :: {bthas[t.tree][x]} bthas[t.tree][x] && holdsKey(x.region, region.meta.StartKey) ==> x == result)
+//@   modifies nothing
 
 // remove takes out the item that holds the region's start key when it carries the same region id, else nothing.
 // Mode `index` (selected by a caller with `at remove K mode index`): the tree is a well-formed index.
 //@ func (*regionTree).remove
-//@   assumed
-//@   requires region != nil && region.meta != nil && (t != nil ==> t.tree != nil)
-//@   requires [index-ok] @index t != nil && itemsOK(t.tree) && disjointT(t.tree)
+//@   props C07
+//@   requires region != nil && region.meta != nil && (t != nil ==> t.tree != nil && itemsOK(t.tree))
+//@   requires [index-ok] @index t != nil && disjointT(t.tree)
+//@   at find 1 mode index when index
+//@   ensures [only-shrinks] t != nil ==> (forall x *regionItem :: {bthas[t.tree][x]} bthas[t.tree][x] ==> old(bthas[t.tree][x]))
 //@   ensures [removes-the-holder] @index forall x *regionItem :: {bthas[t.tree][x]} bthas[t.tree][x] == (old(bthas[t.tree][x]) && !(holdsKey(x.region, region.meta.StartKey) && x.region.meta.Id == region.meta.Id))
-//@   modifies t.totalSize, ghost bthas[t.tree]
+//@   ensures [count] @index btlen[t.tree] == old(btlen[t.tree]) - ite(result == nil, 0, 1)
+//@   modifies t.totalSize, ghost bthas[t.tree], ghost btlen[t.tree]
+
+// getOverlaps: exactly the indexed regions that overlap the argument, in key order, each once. own/idx are the
+// specification's names for "the item behind result[i]" and "the position of item x in the result".
+//@ func (*regionTree).getOverlaps
+//@   props C07
+//@   requires t != nil && t.tree != nil && region != nil && region.meta != nil && itemsOK(t.tree)
+//@   requires [index-ok] @index disjointT(t.tree)
+//@   at find 1 mode index when index
+//@   at AscendGreaterOrEqual 1 invariant len(overlaps) == itk && (forall j :: {overlaps[j]} 0 <= j && j < itk ==> overlaps[j] == ufcast(itseq[j], regionItem).region && (len(region.meta.EndKey) == 0 || btkey(ufcast(itseq[j], regionItem)) < keyord(region.meta.EndKey)))
+//@   witness forall i :: {ufptr("ownerOf", regionItem, result, i)} ufptr("ownerOf", regionItem, result, i) == ufcast(iterseq("AscendGreaterOrEqual", 1)[i], regionItem)
+//@   ensures [listed-are-indexed] forall i :: {result[i]} 0 <= i && i < len(result) ==> result[i] != nil && allocated(result[i]) && bthas[t.tree][ufptr("ownerOf", regionItem, result, i)] && ufptr("ownerOf", regionItem, result, i).region == result[i]
+//@   ensures [listed-overlap] @index forall i :: {result[i]} 0 <= i && i < len(result) ==> ovl(result[i], region)
+//@   witness forall x *regionItem :: {uf("indexOf", result, x)} uf("indexOf", result, x) == iterrank("AscendGreaterOrEqual", 1)[x]
+//@   ensures [all-overlapping-listed] @index forall x *regionItem :: {bthas[t.tree][x]} bthas[t.tree][x] && ovl(x.region, region) ==> 0 <= uf("indexOf", result, x) && uf("indexOf", result, x) < len(result) && result[uf("indexOf", result, x)] == x.region
+//@   ensures [one-to-one] (forall x *regionItem :: {uf("indexOf", result, x)} ufptr("ownerOf", regionItem, result, uf("indexOf", result, x)) == x) && (forall i :: {ufptr("ownerOf", regionItem, result, i)} uf("indexOf", result, ufptr("ownerOf", regionItem, result, i)) == i)
+//@   modifies nothing
 
 // update deletes every indexed item that overlaps the new one, inserts it and returns the displaced regions.
+//@ opaque RegionToHexMeta
 //@ func (*regionTree).update
-//@   assumed
-//@   requires t != nil && t.tree != nil && item != nil && item.region != nil && item.region.meta != nil
-//@   requires [index-ok] @index itemsOK(t.tree) && disjointT(t.tree) && !bthas[t.tree][item] && validRange(item.region)
+//@   props C07
+//@   requires t != nil && t.tree != nil && item != nil && item.region != nil && item.region.meta != nil && itemsOK(t.tree)
+//@   requires [index-ok] @index disjointT(t.tree) && !bthas[t.tree][item] && validRange(item.region)
+//@   at getOverlaps 1 mode index when index
+//@   loop 1 invariant [still-indexed] runmode("index") ==> (forall j :: {overlaps[j]} rangeindex < j && j < len(overlaps) ==> bthas[t.tree][ufptr("ownerOf", regionItem, overlaps, j)])
+//@   loop 1 invariant [removed-so-far] runmode("index") ==> (forall x *regionItem :: {bthas[t.tree][x]} bthas[t.tree][x] == (old(bthas[t.tree][x]) && !(ovl(x.region, item.region) && uf("indexOf", overlaps, x) <= rangeindex)))
+//@   loop 1 invariant [count] runmode("index") ==> btlen[t.tree] == old(btlen[t.tree]) - (rangeindex + 1)
+//@   loop 1 modifies t.totalSize, ghost bthas[t.tree], ghost btlen[t.tree]
+//@   loop 1 invariant [only-shrinks] forall x *regionItem :: {bthas[t.tree][x]} bthas[t.tree][x] ==> old(bthas[t.tree][x])
+//@   ensures [nothing-else-added] forall x *regionItem :: {bthas[t.tree][x]} bthas[t.tree][x] ==> x == item || old(bthas[t.tree][x])
 //@   ensures [set] @index forall x *regionItem :: {bthas[t.tree][x]} bthas[t.tree][x] == (x == item || (old(bthas[t.tree][x]) && !ovl(x.region, item.region)))
+//@   ensures [count] @index btlen[t.tree] == old(btlen[t.tree]) + 1 - len(result)
 //@   ensures [returns-displaced] @index forall i :: {result[i]} 0 <= i && i < len(result) ==> result[i] != nil && allocated(result[i]) && old(bthas[t.tree][ufptr("ownerOf", regionItem, result, i)]) && ufptr("ownerOf", regionItem, result, i).region == result[i] && ovl(result[i], item.region)
 //@   ensures [returns-all-displaced] @index forall x *regionItem :: {old(bthas[t.tree][x])} old(bthas[t.tree][x]) && ovl(x.region, item.region) ==> 0 <= uf("indexOf", result, x) && uf("indexOf", result, x) < len(result) && result[uf("indexOf", result, x)] == x.region
 //@   ensures [one-to-one] @index (forall x *regionItem :: {uf("indexOf", result, x)} ufptr("ownerOf", regionItem, result, uf("indexOf", result, x)) == x) && (forall i :: {ufptr("ownerOf", regionItem, result, i)} uf("indexOf", result, ufptr("ownerOf", regionItem, result, i)) == i)
-//@   modifies t.totalSize, ghost bthas[t.tree]
+//@   modifies t.totalSize, ghost bthas[t.tree], ghost btlen[t.tree]
+
+//@ func (*regionTree).updateStat
+//@   props C07
+//@   requires t != nil && origin != nil && region != nil
+//@   modifies t.totalSize
 
 // The per-store sub-indexes are separate trees: maintaining them never touches the main index (see C07).
 //@ func (*RegionsInfo).removeRegionFromSubTree
 //@   assumed
 //@   ensures forall x *regionItem :: {inTree(r, x)} inTree(r, x) == old(inTree(r, x))
-//@   modifies all regionTree.totalSize, ghost bthas
+//@   ensures [only-shrinks] forall u *btree.BTree, x *regionItem :: {bthas[u][x]} bthas[u][x] ==> old(bthas[u][x])
+//@   modifies all regionTree.totalSize, ghost bthas, ghost btlen
 //@ func (*RegionsInfo).updateSubTreeStat
 //@   assumed
 //@   modifies all regionTree.totalSize
@@ -234,7 +279,10 @@ package core
 
 // The per-store sub-index maps never contain the main index tree.
 //@ pure sepMap(m map[uint64]*regionTree, r *RegionsInfo) = forall s uint64 :: {in(m, s)} in(m, s) ==> m[s] != nil && allocated(m[s]) && m[s] != r.tree && m[s].tree != nil && allocated(m[s].tree) && m[s].tree != r.tree.tree
-//@ pure sepRI(r *RegionsInfo) = r.leaders != nil && r.followers != nil && r.learners != nil && r.pendingPeers != nil && sepMap(r.leaders, r) && sepMap(r.followers, r) && sepMap(r.learners, r) && sepMap(r.pendingPeers, r)
+// Every item of every per-store sub-index is a well-formed item (non-nil region with a valid range).
+//@ pure subItems(m map[uint64]*regionTree) = forall s uint64, x *regionItem :: {bthas[m[s].tree][x]} in(m, s) && bthas[m[s].tree][x] ==> itemOK(x)
+//@ pure opaque subOK(r *RegionsInfo) = subItems(r.leaders) && subItems(r.followers) && subItems(r.learners) && subItems(r.pendingPeers)
+//@ pure sepRI(r *RegionsInfo) = r.leaders != nil && r.followers != nil && r.learners != nil && r.pendingPeers != nil && sepMap(r.leaders, r) && sepMap(r.followers, r) && sepMap(r.learners, r) && sepMap(r.pendingPeers, r) && subOK(r)
 
 // RemoveRegion: the id leaves the map; the index loses the item holding the region's start key under that id.
 //@ func (*RegionsInfo).RemoveRegion
@@ -242,12 +290,13 @@ package core
 //@   requires r != nil && r.tree != nil && r.tree.tree != nil && r.regions != nil && region != nil && region.meta != nil
 //@   ensures [unmapped] forall id uint64 :: {in(r.regions, id)} in(r.regions, id) == (old(in(r.regions, id)) && id != region.meta.Id)
 //@   ensures [map-values] forall id uint64 :: {r.regions[id]} in(r.regions, id) ==> r.regions[id] == old(r.regions[id])
-//@   requires [index-ok] itemsOK(r.tree.tree) && disjointT(r.tree.tree)
+//@   requires [index-ok] itemsOK(r.tree.tree) && disjointT(r.tree.tree) && sepRI(r)
+//@   ensures [sub-indexes-ok] sepRI(r)
 //@   at remove 1 mode index
 //@   ensures [unindexed] forall x *regionItem :: {inTree(r, x)} inTree(r, x) == (old(inTree(r, x)) && !(holdsKey(x.region, region.meta.StartKey) && x.region.meta.Id == region.meta.Id))
 //@   requires [served] @cache cacheOK(r) && cachedRegion(r, region.meta.Id) == region
 //@   ensures [keeps-cache-ok] @cache wfMapVals(r) && wfMapInTree(r) && wfTreeInMap(r) && itemsOK(r.tree.tree) && disjointT(r.tree.tree) && sepRI(r)
-//@   modifies r.regions[*], all regionTree.totalSize, ghost bthas
+//@   modifies r.regions[*], all regionTree.totalSize, ghost bthas, ghost btlen
 
 // BasicCluster.RemoveRegion drops a served region (the caller passes the region currently cached under its id).
 //@ func (*BasicCluster).RemoveRegion
@@ -257,7 +306,7 @@ package core
 //@   at RemoveRegion 1 mode cache
 //@   ensures [keeps-cache-ok] cacheOK(bc.Regions)
 //@   ensures [dropped] !in(bc.Regions.regions, region.meta.Id)
-//@   modifies bc.Regions.regions[*], all regionTree.totalSize, ghost bthas
+//@   modifies bc.Regions.regions[*], all regionTree.totalSize, ghost bthas, ghost btlen
 
 // CheckAndPutRegion (loading at start-up, region syncer on a follower: one caller at a time) puts only what passes
 // the pre-check; what does not pass is handed back and nothing changes.
@@ -266,7 +315,7 @@ package core
 //@   requires bc != nil && cacheOK(bc.Regions) && region != nil && allocated(region) && region.meta != nil && allocated(region.meta)
 //@   ensures [keeps-cache-ok] cacheOK(bc.Regions)
 //@   ensures [rejected-changes-nothing] count("PutRegion") == 0 ==> len(result) == 1 && result[0] == region
-//@   modifies all RegionsInfo.*, all regionTree.*, all regionItem.*, all map[uint64]*regionItem, all map[uint64]*regionTree, ghost bthas
+//@   modifies all RegionsInfo.*, all regionTree.*, all regionItem.*, all map[uint64]*regionItem, all map[uint64]*regionTree, ghost bthas, ghost btlen
 
 // The whole representation invariant of the region cache: id map and key index coupled, indexed regions well
 // formed and pairwise disjoint, per-store sub-indexes separate from the main index.
@@ -282,6 +331,10 @@ package core
 //@   ensures [wf-map-in-tree] wfMapInTree(r)
 //@   ensures [wf-tree-in-map] wfTreeInMap(r)
 //@   loop 1 invariant [indexed-stay-mapped] wfTreeInMap(r)
+//@   loop 1 invariant [sub-indexes-ok] sepRI(r)
+//@   loop 1 invariant [map-values-ok] wfMapVals(r)
+//@   loop 1 invariant [mapped-are-indexed-or-pending] forall id uint64 :: {inTree(r, r.regions[id])} in(r.regions, id) ==> inTree(r, r.regions[id]) || (rangeindex < uf("indexOf", overlaps, r.regions[id]) && uf("indexOf", overlaps, r.regions[id]) < len(overlaps) && overlaps[uf("indexOf", overlaps, r.regions[id])] == r.regions[id].region)
+//@   loop 1 invariant [displaced-unmapped-or-pending] forall x *regionItem :: {old(inTree(r, x))} old(inTree(r, x)) && old(x.region.meta.Id) != region.meta.Id && ovl(old(x.region), region) ==> !in(r.regions, old(x.region.meta.Id)) || rangeindex < uf("indexOf", overlaps, x)
 //@   ensures [wf-items] itemsOK(r.tree.tree)
 //@   ensures [wf-sep] sepRI(r)
 //@   ensures [disjoint] disjointT(r.tree.tree)
@@ -307,10 +360,10 @@ package core
 //@   loop 1 invariant forall j :: {overlaps[j]} 0 <= j && j < len(overlaps) ==> overlaps[j] != nil && overlaps[j].meta != nil && overlaps[j].meta.Id != region.meta.Id && old(in(r.regions, overlaps[j].meta.Id)) && old(r.regions[overlaps[j].meta.Id].region) == overlaps[j] && old(r.regions[overlaps[j].meta.Id]) == pre(r.regions[overlaps[j].meta.Id]) && pre(in(r.regions, overlaps[j].meta.Id)) && !inTree(r, old(r.regions[overlaps[j].meta.Id]))
 //@   loop 1 invariant forall i, j :: {overlaps[i], overlaps[j]} 0 <= i && i < j && j < len(overlaps) ==> overlaps[i].meta.Id != overlaps[j].meta.Id
 //@   loop 1 isolated
-//@   loop 1 modifies r.regions[*], all regionTree.totalSize, ghost bthas
-//@   loop 2 modifies r.leaders[*], r.followers[*], all regionTree.totalSize, ghost bthas
-//@   loop 3 modifies r.learners[*], all regionTree.totalSize, ghost bthas
-//@   loop 4 modifies r.pendingPeers[*], all regionTree.totalSize, ghost bthas
+//@   loop 1 modifies r.regions[*], all regionTree.totalSize, ghost bthas, ghost btlen
+//@   loop 2 modifies r.leaders[*], r.followers[*], all regionTree.totalSize, ghost bthas, ghost btlen
+//@   loop 3 modifies r.learners[*], all regionTree.totalSize, ghost bthas, ghost btlen
+//@   loop 4 modifies r.pendingPeers[*], all regionTree.totalSize, ghost bthas, ghost btlen
 //@   loop 2 isolated
 //@   loop 2 invariant item != nil && allocated(item) && item.region == region && allocated(r.tree) && allocated(r.tree.tree)
 //@   loop 2 invariant r.tree == pre(r.tree) && r.tree.tree == pre(r.tree.tree) && (forall x *regionItem :: {bthas[pre(r.tree.tree)][x]} bthas[pre(r.tree.tree)][x] == pre(inTree(r, x))) && sepRI(r)
@@ -320,7 +373,7 @@ package core
 //@   loop 4 isolated
 //@   loop 4 invariant item != nil && allocated(item) && item.region == region && allocated(r.tree) && allocated(r.tree.tree)
 //@   loop 4 invariant r.tree == pre(r.tree) && r.tree.tree == pre(r.tree.tree) && (forall x *regionItem :: {bthas[pre(r.tree.tree)][x]} bthas[pre(r.tree.tree)][x] == pre(inTree(r, x))) && sepRI(r)
-//@   modifies r.regions[*], all regionItem.region, all regionTree.totalSize, r.leaders[*], r.followers[*], r.learners[*], r.pendingPeers[*], ghost bthas
+//@   modifies r.regions[*], all regionItem.region, all regionTree.totalSize, r.leaders[*], r.followers[*], r.learners[*], r.pendingPeers[*], ghost bthas, ghost btlen
 
 // PutRegion: the put must be acceptable against the cache as it is NOW (the caller re-validates under the lock that
 // serialises cache writers), so the region served for an id never goes back.
@@ -334,7 +387,7 @@ package core
 //@   ensures [cached] cachedRegion(bc.Regions, region.meta.Id) == region
 //@   ensures [never-regresses] old(cachedRegion(bc.Regions, region.meta.Id)) != nil ==> !staleVs(cachedRegion(bc.Regions, region.meta.Id), old(cachedRegion(bc.Regions, region.meta.Id)))
 //@   ensures [displaced-returned] forall i :: {result[i]} 0 <= i && i < len(result) ==> result[i] != nil && allocated(result[i]) && result[i].meta != nil
-//@   modifies all RegionsInfo.*, all regionTree.*, all regionItem.*, all map[uint64]*regionItem, all map[uint64]*regionTree, ghost bthas
+//@   modifies all RegionsInfo.*, all regionTree.*, all regionItem.*, all map[uint64]*regionItem, all map[uint64]*regionTree, ghost bthas, ghost btlen
 
 //@ func (*Storage).DeleteRegion
 //@   assumed
